@@ -355,6 +355,20 @@ class Ctx:
             good = self.obligation("theorem %s" % name, "theorem", not bad,
                                    "axioms: %s" % (", ".join(ax) or "none (closed under the global context)"))
             allok = allok and good
+        if self.tier == "thorough" and os.environ.get("VERIF_NO_COQCHK") != "1":
+            # independent re-check of the compiled property file and everything it depends on
+            try:
+                pc = subprocess.run(["coqchk", "-silent", "-o", "-Q", COQ, "Cherab", "Cherab." + module], cwd=COQ,
+                                    stdout=subprocess.PIPE, stderr=subprocess.STDOUT, text=True, timeout=3000)
+                okc = pc.returncode == 0 and "type-in-type: <none>" in pc.stdout and "unsafe (co)fixpoints: <none>" in pc.stdout \
+                    and "positivity is assumed: <none>" in pc.stdout
+                m2 = re.search(r"\* Axioms:(.*?)\* Constants", pc.stdout, re.S)
+                ctx_ax = [l.strip() for l in (m2.group(1) if m2 else "").splitlines() if l.strip()]
+                self.coverage["coqchk_context_axioms"] = ctx_ax
+                self.obligation("coqchk -o Cherab.%s (independent checker; context axioms: %s)" % (module, ", ".join(ctx_ax) or "none"),
+                                "coqchk", okc, pc.stdout[-1500:])
+            except subprocess.TimeoutExpired:
+                self.obligation("coqchk -o Cherab.%s" % module, "coqchk", False, "timeout")
         missing = [t for t in theorems if t not in self.axioms]
         if missing:
             self.obligation("theorems present", "theorem", False, "missing: %s" % missing)
